@@ -227,6 +227,80 @@ void vh_run_case(Ctx &ctx)
             }
         }
     }
+    // (what the hook saw so far is reported now: after the edit the same pair may legitimately get another answer)
+    for (const auto &p : gHookProblems) {
+        viol("C18", "hook:" + p.substr(0, p.find('|')), p.substr(p.find('|') + 1), replay);
+    }
+    gHookProblems.clear();
+    // ---- the graph changes: an edge NOT chosen with regard to who was queried last is removed (or one is added); every
+    // query must follow, through Variable (at once) and through the AnalyserModel of a NEW analysis made with the same
+    // analyser for the same model object
+    if (rng.chance(0.5)) {
+        std::vector<std::pair<int, int>> current;
+        for (int i = 0; i < n; ++i) {
+            auto v = vars[static_cast<size_t>(i)];
+            for (size_t k = 0; k < v->equivalentVariableCount(); ++k) {
+                auto w = v->equivalentVariable(k);
+                if (w != nullptr && index.count(w.get()) != 0U && i < index[w.get()]) {
+                    current.emplace_back(i, index[w.get()]);
+                }
+            }
+        }
+        std::string edit;
+        if (!current.empty() && rng.chance(0.65)) {
+            auto e = current[rng.below(current.size())];
+            Variable::removeEquivalence(vars[static_cast<size_t>(e.first)], vars[static_cast<size_t>(e.second)]);
+            edit = "removed " + std::to_string(e.first) + "-" + std::to_string(e.second);
+        } else {
+            int a = static_cast<int>(rng.below(static_cast<uint64_t>(n)));
+            int b = static_cast<int>(rng.below(static_cast<uint64_t>(n)));
+            if (a != b) {
+                Variable::addEquivalence(vars[static_cast<size_t>(a)], vars[static_cast<size_t>(b)]);
+                edit = "added " + std::to_string(a) + "-" + std::to_string(b);
+            }
+        }
+        if (!edit.empty()) {
+            UF uf2(static_cast<size_t>(n));
+            for (int i = 0; i < n; ++i) {
+                auto v = vars[static_cast<size_t>(i)];
+                for (size_t k = 0; k < v->equivalentVariableCount(); ++k) {
+                    auto w = v->equivalentVariable(k);
+                    if (w != nullptr && index.count(w.get()) != 0U) {
+                        uf2.unite(i, index[w.get()]);
+                    }
+                }
+            }
+            std::string replay2 = replay + " then " + edit;
+            for (const auto &pr : pairs) {
+                if (pr.first == pr.second) {
+                    continue;
+                }
+                bool want = uf2.find(pr.first) == uf2.find(pr.second);
+                ++queries;
+                if (vars[static_cast<size_t>(pr.first)]->hasEquivalentVariable(vars[static_cast<size_t>(pr.second)], true) != want) {
+                    viol("C18", std::string("hasEquivalentVariable-wrong-after-edit:") + (want ? "false-negative" : "false-positive"),
+                         "pair (" + std::to_string(pr.first) + "," + std::to_string(pr.second) + ") expected " + std::to_string(want) + " after: " + edit, replay2);
+                    break;
+                }
+            }
+            gFirstResult.clear(); // a new graph and a new AnalyserModel: first results are taken afresh
+            analyser->analyseModel(model);
+            monitorLogger(*analyser, "Analyser::analyseModel(again)", replay2);
+            auto am2 = analyser->model();
+            if (am2 != nullptr) {
+                for (const auto &pr : pairs) {
+                    bool want = uf2.find(pr.first) == uf2.find(pr.second);
+                    ++queries;
+                    if (am2->areEquivalentVariables(vars[static_cast<size_t>(pr.first)], vars[static_cast<size_t>(pr.second)]) != want) {
+                        viol("C18", std::string("areEquivalentVariables-wrong-after-reanalysis:") + (want ? "false-negative" : "false-positive"),
+                             "pair (" + std::to_string(pr.first) + "," + std::to_string(pr.second) + ") expected " + std::to_string(want) + " after: " + edit + " and a second analyseModel() with the same analyser", replay2);
+                        break;
+                    }
+                }
+            }
+            stat("graphs_edited_and_requeried");
+        }
+    }
     for (const auto &p : gHookProblems) {
         viol("C18", "hook:" + p.substr(0, p.find('|')), p.substr(p.find('|') + 1), replay);
     }
